@@ -2893,6 +2893,15 @@ def _class_attribute_values(root: ast.AST) -> Collection[ast.AST]:
     }
 
 
+def _is_called_by_keyword(lambda_: ast.Lambda, root: ast.AST) -> bool:
+    """May some call in root pass a parameter of the lambda by its name?
+
+    The parameter names are part of the interface of the lambda; what takes its place need not
+    have parameters of these names, or any that can be passed by name."""
+    keywords = {keyword.arg for call in core.walk(root, ast.Call) for keyword in call.keywords}
+    return any(arg.arg in keywords for arg in lambda_.args.args)
+
+
 @processing.fix
 def _replace_lambda_with_literal(source: str) -> str:
     root = core.parse(source)
@@ -2913,6 +2922,9 @@ def _replace_lambda_with_literal(source: str) -> str:
             source, find, replace, yield_match=True, root=root
         ):
             if template_match[0] in class_attribute_values:
+                continue
+
+            if _is_called_by_keyword(template_match[0], root):
                 continue
 
             # `lambda: f()()` evaluates f() at every call, `f()` once and at once
@@ -2938,6 +2950,9 @@ def _replace_lambda_with_function(source: str) -> str:
     ):
         _, call_args, call_keywords, _, sign_args = template_match
         if template_match.root in class_attribute_values:
+            continue
+
+        if _is_called_by_keyword(template_match.root, root):
             continue
 
         if sign_args.kw_defaults or sign_args.defaults:
